@@ -5,4 +5,10 @@ THEOREMS = {
         "modules": ["Abnf.Theorems.C01"],
         "theorems": ["Abnf.C01.reported_end_is_derivable"],
     },
+    "C16": {
+        "modules": ["Abnf.Theorems.C16"],
+        "theorems": ["Abnf.C16.size_le_limit", "Abnf.C16.lookup_most_recent_or_miss", "Abnf.C16.lookup_never_other_key",
+                     "Abnf.C16.refines_timestamped", "Abnf.C16.lru_evicts_oldest", "Abnf.C16.evicts_only_new_key_at_capacity",
+                     "Abnf.C16.counters_exact", "Abnf.C16.clear_empties_all", "Abnf.C16.overwrite_keeps_order"],
+    },
 }
